@@ -866,7 +866,8 @@ def check_journal_fields(rec, res):
         for p in posts:
             xnote = '\n'.join(x.notes)
             pnote = '\n'.join(p.notes)
-            want.append(dict(payee=x.payee, code=x.code or '', account=p.account, note=pnote + xnote))
+            # (two lone bytes side by side may form a UTF-8 sequence: compare what the bytes decode to)
+            want.append({k: text_of(u8(v)) for k, v in dict(payee=x.payee, code=x.code or '', account=p.account, note=pnote + xnote).items()})
     got = None if rows is None else [dict(payee=r['xact.payee'], code=r['code'], account=r['account'], note=r['note']) for r in rows]
     if got != want:
         res.disagreements.append(dict(name='C18/journal-fields', case=case, impl=str(got)[:1500], model=str(want)[:1500]))
@@ -1195,9 +1196,16 @@ def run(ctx, n_override=None):
     # --display: format_ptree::flush walks xact->posts by POST_EXT_VISITED, which calc_posts sets BEFORE the
     # display filter - the model's xml_transactions is given the postings the code walks (all of them, for
     # each transaction with a displayed posting)
+    # which of the two the current source does is a fact regenerated from ptree.cc (Gen/XmlWalk.v,
+    # theorem xml_walk_faithful); the model says it (xml_walk_name: v = visited, d = displayed)
+    walk = (lib.run_model('C18', [lib.sx(['xmlwalk', 'w'])]) + [''])[0]
+    walk = {'w xmlwalk 76': 'visited', 'w xmlwalk 64': 'displayed'}.get(walk, 'unrecognised')
+    res.count('xml posting walk of the source: ' + walk)
+    if walk == 'unrecognised':
+        res.disagreements.append(dict(name='C18/xml-walk-unrecognised', case={}, impl='ptree.cc format_ptree::flush / operator()', model='Gen/XmlWalk.v: WalkUnrecognised'))
     extra_lines, extra_recs = [], []
     for rec in live:
-        if rec['opt'] != 'display':
+        if rec['opt'] != 'display' or walk != 'visited':
             continue
         allrows = parse_register(rec['outs']['regall'][1])
         walked = [(x, list(x.posts)) for x, _ in rec['shown']]
